@@ -4,6 +4,7 @@ C01 / C06 / C07 / C10 / C11 / C12(b) / C16(b) / C19 from what was observed.
 ops (JSON lists):
   ['add', name, forward|None]   add_child(new(name)[, forward])
   ['rm', k]                     remove(live[k % len(live)])
+  ['rmgone', k]                 remove(a child that was removed / replaced earlier)   (stale handle, must fail cleanly)
   ['rep', k, name]              replace_child(live[k % len(live)], new(name))
   ['repf', k, name]             replace_child(lambda c: c is live[k], new(name))      (predicate form)
   ['set', name, 'el'|'val'|'none']   e.xml_<name> = element / value / None
@@ -70,6 +71,13 @@ def replay(cls, t, hist, props=(), labels=None):
             else:
                 target = live[op[1] % len(live)]
                 res = lib.call(e.remove, target)
+        elif kind == 'rmgone':
+            # remove() with a stale handle: a child that was removed or replaced earlier
+            if not r.gone:
+                skip = True
+            else:
+                target = r.gone[op[1] % len(r.gone)]
+                res = lib.call(e.remove, target)
         elif kind in ('rep', 'repf'):
             if not live:
                 skip = True
@@ -113,6 +121,9 @@ def replay(cls, t, hist, props=(), labels=None):
                 live.append(newkid); r.labels_of[id(newkid)] = label
             elif kind == 'rm':
                 live.remove(target); r.gone.append(target)
+            elif kind == 'rmgone':
+                if want06:
+                    r.viol.append(('C06', 'stale-remove-accepted', i, {'child': target.name}))
             elif kind in ('rep', 'repf'):
                 live[live.index(target)] = newkid; r.gone.append(target); r.labels_of[id(newkid)] = label
             elif kind == 'set':
@@ -371,6 +382,8 @@ def case_string(hist):
             out.append('add:%s' % op[1] + ('' if op[2] is None else '@%d' % op[2]))
         elif op[0] == 'rm':
             out.append('rm:%d' % op[1])
+        elif op[0] == 'rmgone':
+            out.append('rmgone:%d' % op[1])
         elif op[0] in ('rep', 'repf'):
             out.append('%s:%d>%s' % (op[0], op[1], op[2]))
         elif op[0] == 'set':
